@@ -131,6 +131,27 @@ def delivery_contracts():
     return cs
 
 
+def scans(facts):
+    """call-site scans (kind frame-scan): what CsvDataReader.next hands to open() and csv.reader() -- external calls the executor does not model"""
+    import ast
+    FR = "csvpath/util/file_readers.py::CsvDataReader.next"
+    res = []
+    opens = shared.call_sites(facts, FR, "open")
+    ok = opens is not None and len(opens) == 1 and len(opens[0].args) >= 2 and ast.unparse(opens[0].args[0]) == "self._path" and \
+        ast.unparse(opens[0].args[1]) in ("'r'", '"r"') and shared.kw_source(opens[0]).get("encoding") in ("'utf-8'", '"utf-8"')
+    res.append({"name": "reader_opens_its_own_path_as_utf8_text", "advisory": True, "ok": bool(ok), "sites": len(opens or []),
+                "detail": [ast.unparse(c) for c in (opens or [])] or "CsvDataReader.next not found",
+                "text": "CsvDataReader.next opens self._path for reading with encoding='utf-8' (C06: cells are returned as written; another codec, e.g. utf-8-sig, "
+                        "drops or alters leading characters)"})
+    rd = shared.call_sites(facts, FR, "csv.reader")
+    kws = shared.kw_source(rd[0]) if rd else {}
+    ok = rd is not None and len(rd) == 1 and kws == {"delimiter": "self._delimiter", "quotechar": "self._quotechar"}
+    res.append({"name": "reader_parses_with_its_own_delimiter_and_quotechar", "advisory": True, "ok": bool(ok), "sites": len(rd or []),
+                "detail": [ast.unparse(c) for c in (rd or [])] or "csv.reader call not found",
+                "text": "CsvDataReader.next hands csv.reader exactly delimiter=self._delimiter and quotechar=self._quotechar (C06: the configured dialect, nothing else)"})
+    return res
+
+
 def bounded(tier, seed):
     return [{"name": "C06.bounded", "script": "native/bounded_C06.py", "timeout": 3000,
              "scope": "files written by csv.writer from cell texts over an alphabet of 14 characters (letters, space, quotes, the four delimiters, newline, unicode, BOM) "
